@@ -26,6 +26,11 @@ const (
 	axBoth = 3
 )
 
+// axisSlotsOnly restricts the rule to the slots of XY(x, y): outside the
+// rasteriser sums and comparisons of X- and Y-derived values are legitimate
+// (norms, "which side is longer").
+var axisSlotsOnly bool
+
 func (c *Ctx) runAxisTags(rule string, pkgs []*packages.Package, filter func(fn *ssa.Function) bool) {
 	for _, p := range pkgs {
 		if p == nil {
@@ -115,7 +120,7 @@ func (c *Ctx) runAxisTags(rule string, pkgs []*packages.Package, filter func(fn 
 				for _, ins := range b.Instrs {
 					switch x := ins.(type) {
 					case *ssa.BinOp:
-						if !isFloat(x.X.Type()) {
+						if !isFloat(x.X.Type()) || axisSlotsOnly {
 							continue
 						}
 						switch x.Op {
